@@ -324,7 +324,14 @@ def canon(toks):
     sequence of names, variables, numbers, string texts, keywords and operators"""
     out = []
     strbuf = None
-    for kind, val in toks:
+    toks = list(toks)
+    for pos, (kind, val) in enumerate(toks):
+        nxt = toks[pos + 1] if pos + 1 < len(toks) else (None, None)
+        if kind == "sym" and val == "," and nxt == ("sym", "}"):
+            continue        # the separator after the last entry of an object is not an operator of the term
+        if kind == "word" and val in KEYWORDS_DROPPED and nxt[0] == "sym" and nxt[1] in ("}", ":", ","):
+            out.append(("lit", val))        # a reserved word in key position (`{try}`, `{try: 1}`) is a key
+            continue
         if kind == "strpart":
             if val:
                 out.append(("lit", val))
